@@ -138,14 +138,14 @@ func runC12(c *Ctx, r *Report, tier string) {
 		ok := false
 		for _, in := range c.instrs(gfb, c.isCallTo("getBase")) {
 			a := in.(*ssa.Call).Call.Args
-			if c.term(a[0]) == "P0" && c.term(a[1]) == "10" {
+			if c.term(a[0]) == "P0" && (len(a) == 1 || c.term(a[1]) == "10") {
 				ok = true
 			}
 		}
 		okP := false
 		for _, in := range c.instrs(cv, c.isCallTo("getBase")) {
 			a := in.(*ssa.Call).Call.Args
-			if c.term(a[0]) == "P2" && c.term(a[1]) == "10" {
+			if c.term(a[0]) == "P2" && (len(a) == 1 || c.term(a[1]) == "10") {
 				okP = true
 			}
 		}
@@ -312,7 +312,28 @@ func runC12(c *Ctx, r *Report, tier string) {
 			r.Check(ok, "OMIT", c.fname(vid), "default test is value equality", c.ipos(ret), "reflect.DeepEqual(option.value.Interface(), default-applied copy.Interface())", "valueIsDefault returns "+trunc(t, 160)+": not an equality of the stored values")
 		}
 	}
+	// what "no value yet" is: the zero value of the option's type (an empty map for maps) — a pointer option's
+	// empty value is nil, so a pointer to a zero value is a value and is written
+	if ev := c.Fn("(*Option).emptyValue"); ev != nil {
+		tpT := "call:(reflect.Value).Type(Option.value(P0))"
+		for _, ret := range returnsOf(ev) {
+			for _, o := range c.originsOf(ret.Results[0], ret) {
+				switch o.Term {
+				case "call:reflect.Zero(" + tpT + ")":
+					r.OK("OMIT", c.fname(ev), "empty value is the zero value", c.ipos(ret), "reflect.Zero(option.value.Type())")
+				case "call:reflect.MakeMap(" + tpT + ")":
+					r.Check(c.reqAt(ev, o, litIs("eq(21, invoke:Type.Kind("+tpT+"; ))", true)), "OMIT", c.fname(ev), "an allocated empty value only for maps", c.ipos(ret), "MakeMap REQ(kind == Map)", "MakeMap reachable for a non-map kind")
+				default:
+					r.Fail("OMIT", c.fname(ev), "empty value is the zero value", c.ipos(ret), "emptyValue returns "+trunc(o.Term, 100)+": a value that is not the type's zero value compares equal to `no value`, so an option explicitly set to it is omitted from the INI and reads back as nil/zero")
+				}
+			}
+		}
+	}
 	// the rendering base is accepted exactly in 2..36
+	gbT := "call:getBase(P0, 10)#0"
+	if gb := c.Fn("getBase"); gb != nil && len(gb.Params) == 1 {
+		gbT = "call:getBase(P0)#0"
+	}
 	if gfb := c.mustFn(r, "getFormatBase"); gfb != nil {
 		for _, ret := range returnsOf(gfb) {
 			if len(ret.Results) != 2 {
@@ -320,11 +341,11 @@ func runC12(c *Ctx, r *Report, tier string) {
 			}
 			e := c.term(ret.Results[1])
 			if e == "nil" {
-				_, a := c.Requires(gfb, isInstr(ret), litIs("lt(call:getBase(P0, 10)#0, 2)", false), nil)
-				_, b := c.Requires(gfb, isInstr(ret), litIs("lt(36, call:getBase(P0, 10)#0)", false), nil)
+				_, a := c.Requires(gfb, isInstr(ret), litIs("lt("+gbT+", 2)", false), nil)
+				_, b := c.Requires(gfb, isInstr(ret), litIs("lt(36, "+gbT+")", false), nil)
 				r.Check(a && b, "KINDS", c.fname(gfb), "a base is accepted only in 2..36", c.ipos(ret), "REQ(¬ base < 2) ∧ REQ(¬ 36 < base)", fmt.Sprintf("lower bound necessary=%v upper bound necessary=%v", a, b))
 			} else if strings.HasPrefix(e, "call:fmt.Errorf(") {
-				path, ok := c.Requires(gfb, isInstr(ret), anyLit(litIs("lt(call:getBase(P0, 10)#0, 2)", true), litIs("lt(36, call:getBase(P0, 10)#0)", true)), nil)
+				path, ok := c.Requires(gfb, isInstr(ret), anyLit(litIs("lt("+gbT+", 2)", true), litIs("lt(36, "+gbT+")", true)), nil)
 				r.Check(ok, "KINDS", c.fname(gfb), "a base is refused only outside 2..36", c.ipos(ret), "REQ(base < 2 ∨ 36 < base)", "a base inside 2..36 is refused, so the value is written as an empty string: "+pathStr(path))
 			}
 		}
